@@ -4,6 +4,26 @@ import json, sys
 
 CHECKS = {
  # id: (engine, category, technique, level text, level note, design_ref)
+ "C01": ("geo+rsx", "model_checking",
+         "exhaustive enumeration of three state lattices (incl. a displacement-directed one that forces far images into contact) judged by a brute-force all-images overlap oracle",
+         "Every point of three finite lattices of real states per (7 groups x 11 shapes) - generic grid around the heuristic's thresholds x a geometric length ladder, displacement-directed lattice (site solved so a chosen pair of copies sits at a chosen displacement |v| < 2R modulo the lattice), bound-clamped special positions and the initial site under pure shrinking - goes through the crate's deserialiser and score(); every scored state is judged by a search over all images within 2R (SAT / disc distance, 1e-9). 15 M states quick.",
+         "Trusted: SAT depth for convex polygons, disc distance; lattice vectors from the three cell numbers. Exhaustive over the lattices, not over the reals; regression corpus under corpus/C01 is always included.",
+         "5/C01"),
+ "C03": ("geo", "exploration",
+         "exhaustive lattice enumeration of LJ states and of their re-descriptions against an independent lattice sum",
+         "Complete product 7 groups x 5 LJ shapes x cell ratio x angle x length ladder x site grid x orientations; each score is compared with an independent sum over every unordered pair of distinct molecule images (to cutoff + extent; uncut: to 60 sigma with an explicit tail bound) and with the score of every equivalent re-description (site shifted by a lattice vector / commuting half lattice vector).",
+         "Pair energies are the crate's own molecule-pair energy (symmetrised) so only weights, range and normalisation are judged; the three-shell truncation for cut potentials is a known finding keyed by 'an interacting pair lies beyond the third shell'. Singular states (coinciding particles) only need to be invalid or astronomically bad.",
+         "5/C03"),
+ "C04": ("geo", "exploration",
+         "exhaustive lattice enumeration of constructible states judged by an independent ITA table conjugated into Cartesian space",
+         "Complete product 7 groups x 2 state kinds with asymmetric probe shapes x cells of the group's family x site grid incl. bounds x orientations, plus constructor-built states: every operation of the independent table, expressed in Cartesian space with this cell, must be orthogonal and map the set of placed point sets onto itself up to lattice vectors. States reached by optimisation are judged by the same oracle in the thorough tier's chained-stage search.",
+         "Trusted: ITA table; point-set comparison at 1e-9 relative.",
+         "5/C04"),
+ "C08": ("rsx", "model_checking",
+         "explicit-state breadth-first search whose transition function is one real optimise_state call (a stage) under scripted draws, deduplicated on parameter bit patterns, invariants checked on every proposal and returned state",
+         "BFS from the initial and a dense start state of 7 groups x 7 (quick) / 11 (thorough) shapes incl. LJ: 28 actions per state (every parameter x moves of -1/2, -0.05, +0.05, +1/2 of its range, shrink-and-regrow two-step stages), depth 3 / 5, per-start state cap reported. Every proposal and every returned state must satisfy the declared ranges relative to the stage start, family/group/shape unchanged, returned score finite. Initial states of the whole shape lattice are checked for validity.",
+         "Trusted: the serialised state is the state (bit-exact through serde_json::Value). Chains longer than the depth bound are outside the search.",
+         "5/C08"),
  "C05": ("mcx", "model_checking",
          "stateless model checking of the real optimiser: exhaustive enumeration of scripted environment histories (random draws + score answers) with bounded deviations",
          "The optimiser's only nondeterminism (three random draws per step through the verif hook, and the score answers of a probe State) is owned by the harness; every history with at most 1 (quick) / 2 (thorough) departures from 4 baseline answer patterns, plus a full product to depth 3, is executed for every configuration of the kt_start = 0 grid (kt_finish x kt_ratio x steps/inner_steps x max_step_size x convergence). A reference model of all consistent accept/reject histories decides monotonicity of accepted scores and returned >= input.",
@@ -106,6 +126,8 @@ def main():
             "add_only": True,
         },
         "engines": [
+            {"name": "rsx", "path": "harness/src/rsx.rs", "serves_properties": ["C08", "C01", "C04", "C05"], "kind_free_text": "explicit-state BFS over real crystal states; transition = one real optimiser stage under a scripted generator; observer wrapper sees every score() call"},
+            {"name": "geo-states", "path": "harness/src/geo2.rs", "serves_properties": ["C01", "C03", "C04"], "kind_free_text": "exhaustive enumeration of state lattices (generic, displacement-directed, special positions) with brute-force lattice oracles"},
             {"name": "mcx", "path": "harness/src/mcx.rs, harness/src/mc_props.rs", "serves_properties": ["C05", "C06", "C07", "C18", "C19", "C20"], "kind_free_text": "stateless model checker for the real MCOptimiser: the three random draws per step are scripted through the crate's verif hook and score() answers through a probe State; enumerates all histories within a deviation bound, measures acceptance thresholds by replay bisection"},
             {"name": "cli", "path": "harness/src/cli.rs", "serves_properties": ["C20"], "kind_free_text": "real release binary over an argument grid; in-process analyse_state via include! of /repo/src/main.rs"},
             {"name": "geo", "path": "harness/src/geo1.rs", "serves_properties": ["C02", "C12", "C13", "C14", "C15"], "kind_free_text": "exhaustive enumeration of finite input lattices built from the code's thresholds, bounds and exact alignments, judged by independent closed-form oracles"},
